@@ -1,6 +1,7 @@
 /- Driver ops for C04: cross-fit split / pairing / call sequence. -/
 import Driver.Common
 import ZepidVerif.Model.Crossfit
+import ZepidVerif.Model.CrossfitGen
 namespace ZVD
 open ZV ZV.Crossfit
 
@@ -13,29 +14,76 @@ def showEv : Ev → String
 def parseLists_C04 (s : String) : Option (List (List Nat)) :=
   if s == "" || s == "-" then some [] else (s.splitOn ";").mapM (parseList parseNat)
 
-/-- `crossfit double=<0|1> k=<n_splits> rows=<ids> picks=<draw_0;draw_1;…>`: the draws observed on the
-    implementation (first `k-1` parts) become the chooser table, keyed by the length of the remainder they
-    were drawn from; the model returns all parts (the last one is derived) and the full call sequence. -/
+def parseCls (s : String) : Option Cls :=
+  if s == "SingleCrossfitAIPTW" then some .sAIPTW else if s == "DoubleCrossfitAIPTW" then some .dAIPTW
+  else if s == "SingleCrossfitTMLE" then some .sTMLE else if s == "DoubleCrossfitTMLE" then some .dTMLE else none
+
+def showOptList : Option (List Nat) → String
+  | some l => showList toString l
+  | none => "!"
+
+/-- chooser table from the draws observed on the implementation (first `k-1` parts), keyed by the length of the
+    remainder they were drawn from -/
+def pickTable (rows : List Nat) (k : Nat) (picks : List (List Nat)) : List Nat → Nat → List Nat :=
+  let m := rows.length / k
+  tablePick (picks.zipIdx.map (fun p => (rows.length - p.2 * m, p.1)))
+
+/-- `crossfit cls=<class name> k=<n_splits> rows=<ids> picks=<draw_0;draw_1;…>`: the draws observed on the
+    implementation become the chooser table.  Executed: the partition **assembled from the regenerated code**
+    (`genCrossfit`: regenerated guard, `_sample_split_`, nuisance functions, prediction loop) → `splits`, `trace`;
+    `uses` = what the regenerated loop hands to `_generate_predictions_`, a fitted copy shown by its training rows;
+    `model` = whether the hand-written model `Crossfit.crossfit` (the subject of `crossfit_sound`) returns the same. -/
 def opCrossfit (a : Args) : Except String String := do
-  let double ← need a "double" parseBool
+  let c ← need a "cls" parseCls
   let k ← need a "k" parseNat
   let rows ← nats a "rows"
   let picks ← need a "picks" parseLists_C04
   if k == 0 then throw "bad-arg:k"
-  let m := rows.length / k
-  let tab := picks.zipIdx.map (fun p => (rows.length - p.2 * m, p.1))
-  match crossfit double (tablePick tab) rows k with
-  | none => pure "err badInput"
+  let pick := pickTable rows k picks
+  let agree := showBool (genCrossfit c pick rows k == crossfit c.double pick rows k)
+  match genCrossfit c pick rows k with
+  | none => pure s!"err badInput model={agree}"
   | some (s, evs) =>
+    let uses := genUses c pick (fun s => s) (fun s => s) rows k
+    let showUse := fun (u : Option (List Nat) × Option (List Nat) × Option (List Nat)) =>
+      s!"{showOptList u.1}>{showOptList u.2.1}>{showOptList u.2.2}"
     pure (s!"ok splits={";".intercalate (s.map (showList toString))} " ++
-      s!"trace={"|".intercalate (evs.map showEv)} leakfree={showBool (leakFree evs)}")
+      s!"trace={"|".intercalate (evs.map showEv)} leakfree={showBool (leakFree evs)} " ++
+      s!"uses={"|".intercalate (uses.map showUse)} model={agree}")
 
-/-- `pairidx k=<k> d=<1|2>` → the pairing list `[i - d for i in range(k)]` as non-negative indices -/
+/-- `samplesplit k=<n_splits> rows=<ids> picks=<draws>` → the regenerated `_sample_split_` alone (any `k ≥ 1`,
+    including more parts than rows), and whether the model's `sampleSplit` agrees -/
+def opSampleSplit (a : Args) : Except String String := do
+  let k ← need a "k" parseNat
+  let rows ← nats a "rows"
+  let picks ← need a "picks" parseLists_C04
+  if k == 0 then throw "bad-arg:k"
+  let pick := pickTable rows k picks
+  let s := Gen.sample_split pick rows k
+  pure s!"ok splits={";".intercalate (s.map (showList toString))} model={showBool (s == sampleSplit pick rows k)}"
+
+/-- `pyget l=<ints> i=<int>` → Python's `l[i]` as modelled by `Py.get` (`err index` = IndexError) -/
+def opPyGet (a : Args) : Except String String := do
+  let l ← nats a "l"
+  let i ← need a "i" (fun s => s.toInt?)
+  match Py.get l i with
+  | some v => pure s!"ok v={v}"
+  | none => pure "err index"
+
+/-- `pairidx k=<k> d=<1|2>` → the pairing list `[i - d for i in range(k)]` resolved to positions: `idx` by the model's
+    `pairIdx`, `gen` by the regenerated prediction loop run on `k` one-row parts (`d = 1`: the treatment copy of a
+    single cross-fit class, `d = 2`: the outcome copy of a double cross-fit class; `!` = IndexError) -/
 def opPairIdx (a : Args) : Except String String := do
   let k ← need a "k" parseNat
   let d ← need a "d" parseNat
-  pure s!"ok idx={showList toString ((List.range k).map (fun i => pairIdx k i d))}"
+  let take : List Nat → Nat → List Nat := fun rem m => rem.take m
+  let S := Gen.sample_split take (List.range k) k
+  let uses := genUses (if d == 2 then Cls.dTMLE else Cls.sAIPTW) take (fun s => S.idxOf s) (fun s => S.idxOf s)
+    (List.range k) k
+  let g := uses.map (fun u => match (if d == 2 then u.2.2 else u.2.1) with | some j => toString j | none => "!")
+  pure s!"ok idx={showList toString ((List.range k).map (fun i => pairIdx k i d))} gen={showList id g}"
 
-def opsC04 : OpTable := [("crossfit", opCrossfit), ("pairidx", opPairIdx)]
+def opsC04 : OpTable := [("crossfit", opCrossfit), ("pairidx", opPairIdx), ("samplesplit", opSampleSplit),
+  ("pyget", opPyGet)]
 
 end ZVD
